@@ -46,7 +46,7 @@ def classify(f):
         ctx = sorted(set((o.get("ctx") or [[]] * len(exp))[i]))
         if want in ("decl-let", "decl-const") and "forvar-same-name" in ctx:
             role += "/ctx:in-body-of-for-var-loop-declaring-the-name"
-        elif want in ("decl-let", "decl-const") and "loopcond-same-name" in ctx and got.startswith("free"):
+        elif want in ("decl-let", "decl-const") and "loopcond-same-name" in ctx:
             role += "/ctx:in-body-of-a-loop-whose-condition-mentions-the-name"
         elif "default-same-name" in ctx and kinds[i] != "default" and want not in ("cxname",):
             role += "/ctx:name-also-in-a-parameter-default-of-an-enclosing-function"
